@@ -1268,7 +1268,10 @@ int safec_vsnprintf_s(out_fct_type out, const char *funcname, char *buffer,
                     invoke_safe_str_constraint_handler(msg, buffer, ESNULLP);
                     return -(ESNULLP);
                 }
-                l = wcsnlen_s(lp, precision ? precision : RSIZE_MAX_WSTR);
+                if (flags & FLAGS_PRECISION)
+                    l = precision ? wcsnlen_s(lp, precision) : 0;
+                else
+                    l = wcsnlen_s(lp, RSIZE_MAX_WSTR);
                 p = (char *)malloc(l + 1);
                 if (!p) {
                     char msg[80];
@@ -1277,7 +1280,12 @@ int safec_vsnprintf_s(out_fct_type out, const char *funcname, char *buffer,
                     invoke_safe_str_constraint_handler(msg, buffer, 1);
                     return -1;
                 }
-                err = wcstombs_s(&len, p, l + 1, lp, l);
+                if (l)
+                    err = wcstombs_s(&len, p, l + 1, lp, l);
+                else { /* %.0ls: nothing is converted */
+                    *p = '\0';
+                    err = EOK;
+                }
                 if (err != EOK) {
                     char msg[80];
                     snprintf(msg, sizeof msg,
